@@ -87,6 +87,23 @@ func H_C10_AffgVerifyRange() {
 	vsym.Reach("affg-range-checked")
 }
 
+// H_C10_FacVerifyRange: zkfac.Verify on an arbitrary proof with all fields present: whenever it accepts, BOTH responses lie
+// in [-2^(1+l+eps)*sqrt(N), 2^(1+l+eps)*sqrt(N)] (bit length <= 1+768+1024).
+func H_C10_FacVerifyRange() {
+	public := zkfac.Public{N: zk.ProverPaillierPublic.N(), Aux: zk.Pedersen}
+	var proof *zkfac.Proof
+	vsym.Havoc(&proof, "proof")
+	var ok bool
+	panicked := vsym.ExpectPanic(func() { ok = proof.Verify(public, hash.New()) })
+	vsym.Assert(!panicked, "zkfac.Verify never panics on an arbitrary proof")
+	if !panicked && ok {
+		vsym.Assert(below(proof.Z1, 1793), "accepted zkfac proof: |z1| < 2^(1+l+eps+1024)")
+		vsym.Assert(below(proof.Z2, 1793), "accepted zkfac proof: |z2| < 2^(1+l+eps+1024)")
+		vsym.Reach("fac-accepting-path")
+	}
+	vsym.Reach("fac-range-checked")
+}
+
 // H_C10_EmptyShapes: every proof verifier of pkg/zk, given the shapes a CBOR decoder produces from a message that simply
 // omits fields (nil proof, proof with no fields, proof with an empty commitment), rejects without panicking.
 // Fully concrete per path: violations replay natively.
